@@ -62,11 +62,22 @@ class HostRig:
     def connection_made(self, transport):
         pass
 
+    up_raise_next = False          # the upper layer raises out of its next data_received / reset_received (after having taken the delivery)
+    _upraised = 0
+
+    def _maybe_raise(self):
+        if self.up_raise_next:
+            self.up_raise_next = False
+            self._upraised = 1
+            raise RuntimeError("upper layer failed while consuming a delivery")
+
     def data_received(self, data):
         self.out.append({"o": "up_data", "pl": token(data)})
+        self._maybe_raise()
 
     def reset_received(self, code):
         self.out.append({"o": "up_reset", "code": int(code)})
+        self._maybe_raise()
 
     def connection_lost(self, exc):
         self.out.append({"o": "up_lost"})
@@ -93,6 +104,7 @@ class HostRig:
 
     def _event(self, ev):
         ev["out"] = self.out
+        ev["upraise"], self._upraised = self._upraised, 0
         ev["t"] = self.loop.ms
         self.out = []
         self.trace.append(ev)
